@@ -61,6 +61,22 @@ Definition ItemOk (g : graph) (ar : list entry) (j : json) (it : item) : Prop :=
                             DirFilesOk g ar y files
   end.
 
+(* entity e, whose id is x, carries the item; the entity called y carries the item *)
+Definition IValOk (g : graph) (ar : list entry) (e : json) (x : string) (it : item) : Prop :=
+  match it with
+  | IFile h s => FileOk g ar x h s
+  | ILit alts => HasType e "PropertyValue" /\ exists j, get e "value" = Some j /\ ItemOk g ar j (ILit alts)
+  | IDir files => HasType e "Dataset" /\ DirFilesOk g ar x files
+  end.
+
+Definition ICarried (g : graph) (ar : list entry) (y : string) (it : item) : Prop :=
+  exists e, Entity g y e /\ IValOk g ar e y it.
+
+(* the elements of a record's value array are the carriers of its fields *)
+Definition RecordOk (g : graph) (ar : list entry) (js : list json) (fields : list item) : Prop :=
+  (forall it, In it fields -> exists el y, In el js /\ ref_of el = Some y /\ ICarried g ar y it) /\
+  (forall el, In el js -> exists y it, ref_of el = Some y /\ In it fields /\ ICarried g ar y it).
+
 (* entity e, whose id is x, carries the value v *)
 Definition ValOk (g : graph) (ar : list entry) (e : json) (x : string) (v : value) : Prop :=
   match v with
@@ -71,6 +87,12 @@ Definition ValOk (g : graph) (ar : list entry) (e : json) (x : string) (v : valu
       HasType e "PropertyValue" /\ exists j, get e "value" = Some j /\ Forall2 (ItemOk g ar) (as_list j) its
   | VItem (IDir files) => HasType e "Dataset" /\ DirFilesOk g ar x files
   | VDir files => HasType e "Dataset" /\ DirFilesOk g ar x files
+  | VRecord fields =>
+      HasType e "PropertyValue" /\ exists j, get e "value" = Some j /\ RecordOk g ar (as_list j) fields
+  | VColl h s secs =>
+      HasType e "Collection" /\
+      (exists j y, get e "mainEntity" = Some j /\ ref_of j = Some y /\ FileOk g ar y h s) /\
+      forall h' s', In (h', s') secs -> exists z, PRef e "hasPart" z /\ FileOk g ar z h' s'
   end.
 
 (* p is a formal parameter called [name], listed as input (resp. output) of the main entity *)
@@ -132,6 +154,8 @@ Record wf_crate (g : graph) (ar : list entry) (vs : list rv) (ss : list sv) : Pr
   wf_unique : NoDup (ids g);
   (* consistent: every reference that is not a web resource resolves inside the graph *)
   wf_refs : forall e r, In e g -> ERef e r -> External r \/ exists e', Entity g r e';
+  (* the archive has one member per name *)
+  wf_entries : NoDup (map en_name ar);
   (* self-contained: every File entity is in the archive with the recorded checksum and size *)
   wf_files : forall e i, Entity g i e -> HasType e "File" -> RecordedOk ar e i;
   (* every input and output value of the run is represented *)
